@@ -55,7 +55,7 @@ let () = iter_lines (fun line ->
       | _ -> failwith "frame fields" in
     let fs = frames rest in
     let w = z_of_string w and h = z_of_string h in
-    let i = AnimDec.impl_run w h fs and s = Canvas.spec_run w h fs in
+    let i = AnimDecLoops.impl_run_loops w h fs and s = Canvas.spec_run w h fs in
     Printf.printf "I %s S %s\n"
       (String.concat "," (Stdlib.List.map hex_of_canvas i))
       (String.concat "," (Stdlib.List.map hex_of_canvas s))
